@@ -7,6 +7,7 @@ mod lowlevel;
 mod problems;
 mod props;
 mod run;
+mod stiff;
 mod trees;
 mod util;
 
@@ -103,6 +104,7 @@ fn main() {
         "C11" => c11,
         "C12" => c12,
         "C13" => c13,
+        "C14" => c14,
         "C16" => c16,
         "C17" => c17,
         "C18" => c18,
